@@ -149,6 +149,13 @@ func c11BuildFamily(f *c11Family, only int) *c11FamObjs {
 			for _, r := range f.Rules {
 				_ = ts.AddRule(r.Name, fo.rules[r.Name])
 			}
+			for _, o := range t.Own {
+				if o.Regex {
+					_ = ts.AddType(o.Name, regex.New(o.Name, o.Text))
+				} else {
+					_ = ts.AddType(o.Name, njs.New(o.Name, o.Text))
+				}
+			}
 			fo.types[t.Name] = ts
 		}
 		if f.FullReg {
